@@ -188,7 +188,7 @@ def _env(home):
 
 
 def run_modes(shell_argv, text, workdir, tag):
-    """-> {mode: (status, stdout, stderr)} for file, c, source, eval, stdin"""
+    """-> {mode: (status, stdout, stderr)} for file, c, source, eval, stdin, stdin_s (-s)"""
     path = os.path.join(workdir, "p%s.sh" % tag)
     with open(path, "w") as f:
         f.write(text)
@@ -208,6 +208,8 @@ def run_modes(shell_argv, text, workdir, tag):
     go("eval", ["-c", 'eval "$1"', "sh", text])
     with open(path, "rb") as f:
         go("stdin", [], stdin=f)
+    with open(path, "rb") as f:
+        go("stdin_s", ["-s"], stdin=f)
     os.remove(path)
     return res
 
@@ -438,10 +440,10 @@ def check_modes(ctx, progs, workdir, res):
     with ThreadPoolExecutor(8) as ex:
         results = list(ex.map(one, range(len(progs))))
     for i, t, br, ba in results:
-        res["evaluations"] += 5
+        res["evaluations"] += 6
         ref = br["file"]
-        diffs = [m for m in ("c", "source", "eval", "stdin") if br[m][:2] != ref[:2]]
-        bash_diffs = [m for m in ("c", "source", "eval", "stdin") if ba[m][:2] != ba["file"][:2]]
+        diffs = [m for m in ("c", "source", "eval", "stdin", "stdin_s") if br[m][:2] != ref[:2]]
+        bash_diffs = [m for m in ("c", "source", "eval", "stdin", "stdin_s") if ba[m][:2] != ba["file"][:2]]
         if ref[:2] != ba["file"][:2]:
             # brush's file mode differs from bash (e.g. bash numbers a simple command that contains a
             # multi-line quoted word by its last line): a bash-parity matter of the interpreter, not of
